@@ -15,3 +15,14 @@ Theorem c14_countmin_ok_is_wellshaped :
   cm_total s <= mx /\ cm_max s = mx /\ cm_seed_hash s = sh /\
   (cm_total s <> 0 -> (16 + 8 * (1 + N.to_nat (cm_nh s * cm_nb s)) <= length bs)%nat).
 Proof. exact deserialize_ok_shape. Qed.
+
+(* non-vacuity: a 40-byte u8 image of a 1 x 3 table is accepted; its truncation, a counter above the total
+   weight and a counter outside the type's range are rejected (Err, not Stuck) *)
+Example c14_countmin_example :
+  let hdr := [2; 1; 18; 0; 0; 0; 0; 0; 3; 0; 0; 0; 1; 7; 0; 0] in
+  let cell v := [v; 0; 0; 0; 0; 0; 0; 0] in
+  cm_deserialize 255 7 (hdr ++ cell 9 ++ cell 5 ++ cell 0 ++ cell 4) = Ok (mkCm 1 3 255 7 9 [5; 0; 4]) /\
+  cm_deserialize 255 7 (hdr ++ cell 9 ++ cell 5 ++ cell 0) = Err /\
+  cm_deserialize 255 7 (hdr ++ cell 9 ++ cell 10 ++ cell 0 ++ cell 4) = Err /\
+  cm_deserialize 255 7 (hdr ++ cell 9 ++ [5; 1; 0; 0; 0; 0; 0; 0] ++ cell 0 ++ cell 4) = Err.
+Proof. vm_compute. repeat split. Qed.
